@@ -3,11 +3,18 @@
 EXTENDS HTranslate, IOUtils
 Cases == JsonDeserialize(IOEnv.TRACE_FILE).cases
 VARIABLES t, l, bad
+\* `pre`: the texts of the unmutated programs obtained at the start of the process, before any history ran (fresh translator per
+\* text): the function every later call of the process must agree with - state leaked across histories (module-level) is seen too.
+Pre(cs) == [k \in {<<cs.pre[j].lang, cs.pre[j].pkg, cs.pre[j].prog, 0>> : j \in DOMAIN cs.pre} |->
+              cs.pre[CHOOSE j \in DOMAIN cs.pre : <<cs.pre[j].lang, cs.pre[j].pkg, cs.pre[j].prog, 0>> = k].text]
 TInit == Init /\ t \in DOMAIN Cases /\ l = 0 /\ bad = {}
+TInit2 == /\ t \in DOMAIN Cases /\ l = 0 /\ bad = {} /\ hist = <<>> /\ ver = [q \in Programs |-> 0] /\ pkg = [tr \in {"A", "B"} |-> "x"] /\ done = FALSE
+          /\ text = Pre(Cases[t])
 TNext == /\ l < Len(Cases[t].steps) /\ l' = l + 1 /\ t' = t
          /\ LET s == Cases[t].steps[l + 1] IN
             IF s.op = "mut"
             THEN MutateInPlace(s.prog) /\ bad' = bad \cup (IF s.text = "" THEN {<<l + 1, "NoException">>} ELSE {})
+            ELSE IF s.op = "pkg" THEN SetPackage(s.tr, s.prog) /\ bad' = bad
             ELSE /\ Translate(s.tr, s.prog, s.text)
                  /\ bad' = bad \cup (IF ~Functional(s.tr, s.prog, s.text) THEN {<<l + 1, "Functional">>} ELSE {})
                                \cup (IF ~ProgUnchanged(s.before, s.after) THEN {<<l + 1, "ProgramUnchanged">>} ELSE {})
